@@ -1,7 +1,7 @@
 """C08: per-actor certificates + glue (see lean/Poupool/Properties/C08.lean and checks/actors_common.py)."""
 from checks import actors_common as ac
 
-THEOREMS = ['Poupool.C08.filtration_timers', 'Poupool.C08.tank_timers', 'Poupool.C08.heating_timers', 'Poupool.C08.disinfection_timers', 'Poupool.C08.swim_timers', 'Poupool.C08.arduino_timers']
+THEOREMS = ['Poupool.C08.filtration_timers', 'Poupool.C08.tank_timers', 'Poupool.C08.heating_timers', 'Poupool.C08.disinfection_timers', 'Poupool.C08.swim_timers', 'Poupool.C08.arduino_timers', 'Poupool.C08.filtration_timeouts', 'Poupool.C08.filtration_poll_periods', 'Poupool.C08.other_timeouts', 'Poupool.C08.durations_resolved']
 MODULE = "Poupool.Properties.C08"
 
 
@@ -18,3 +18,8 @@ def search(chk):
 
 def replay(path):
     return ac.replay(path)
+
+
+def extra(chk, info, res):
+    if res is not None:
+        ac.check_intervals(chk, res, None)
